@@ -343,7 +343,7 @@ func returnsFrom(fn *ssa.Function, first ssa.Instruction) []*ssa.Return {
 // ruleCycleErr (W-cycleerr, X-iscycle).
 func ruleCycleErr(rule string) RuleFn {
 	return func(c *an.Ctx) {
-		c.Rule(rule, "W-cycleerr/X-iscycle: errCycleDetected values are constructed only in Scope.cycleDetectedError and on the re-entry edge of constructorNode.Call; cycleDetectedError is called only with the cycle reported by a failed graph.IsAcyclic call; IsCycleDetected returns exactly the result of one errors.As(err, *errCycleDetected) - so IsCycleDetected is true exactly for cycle rejections")
+		c.Rule(rule, "W-cycleerr/X-iscycle: errCycleDetected values are constructed only in Scope.cycleDetectedError and on the re-entry edge of constructorNode.Call; cycleDetectedError is called only with the cycle reported by a failed graph.IsAcyclic call; IsCycleDetected looks for an errCycleDetected link among the links dig itself created (from the outermost dig.Error down, stopping at errConstructorFailed and at the first foreign error), never inside the error a constructor returned - so IsCycleDetected is true exactly for cycle rejections of this container")
 		n := 0
 		for _, fn := range c.P.Funcs {
 			an.Instrs(fn, func(in ssa.Instruction) {
@@ -357,9 +357,9 @@ func ruleCycleErr(rule string) RuleFn {
 					// the second legitimate site: the re-entry test of the constructor executor (a constructor found
 					// 'being built' again is on a dependency cycle, see G-ctor-reentry) - only under that test
 					if nm == "(*dig.constructorNode).Call" {
-						pos := an.BoolEdges(fn, func(v ssa.Value) bool { return an.Norm(v) == "p:n.building" }, true)
+						pos := an.BoolEdges(fn, func(v ssa.Value) bool { return an.Norm(v) == "p:n.building" || an.Norm(v) == "p:n.running" }, true)
 						hit, _ := an.PathTo(fn, nil, an.IsInstr(al), an.NewGates().AddEdges(pos...))
-						c.Check(len(pos) > 0 && hit == nil, rule, "errCycleDetected constructed in "+nm, "only on the re-entry edge (n.building)", "a cycle error is manufactured in the constructor executor outside its re-entry test: IsCycleDetected becomes true for non-cycle rejections", al, nil)
+						c.Check(len(pos) > 0 && hit == nil, rule, "errCycleDetected constructed in "+nm, "only on a re-entry edge (n.building / n.running)", "a cycle error is manufactured in the constructor executor outside its re-entry test: IsCycleDetected becomes true for non-cycle rejections", al, nil)
 						return
 					}
 					c.Check(nm == "(*dig.Scope).cycleDetectedError", rule, "errCycleDetected constructed in "+nm, "owner", "a cycle error is manufactured outside cycleDetectedError: IsCycleDetected becomes true for non-cycle rejections", al, nil)
@@ -385,22 +385,37 @@ func ruleCycleErr(rule string) RuleFn {
 		}
 		c.Floor(rule, "errCycleDetected construction sites", n, 1)
 		if fn := c.Fn(rule, "dig.IsCycleDetected"); fn != nil {
-			ok := false
-			nret := 0
+			good, why := true, ""
+			// no search through the whole chain for the cycle error: that would also look inside the error a
+			// constructor returned (a nested container's cycle rejection passed on with %w)
+			for _, k := range an.CallsNamed(fn, "errors.As", "errors.Is") {
+				if len(k.Common().Args) == 2 && strings.Contains(k.Common().Args[1].Type().String()+an.Norm(k.Common().Args[1]), "errCycleDetected") {
+					good, why = false, "IsCycleDetected searches the whole chain with "+an.CalleeName(k)+"(err, *errCycleDetected), the part a constructor returned included: a constructor that fails with the (wrapped) cycle rejection of another container makes IsCycleDetected true for an acyclic graph"
+				}
+			}
+			found := an.BoolEdges(fn, func(v ssa.Value) bool { return taOK(v, "errCycleDetected") }, true)
+			nTrue := 0
 			an.Instrs(fn, func(in ssa.Instruction) {
 				r, isR := in.(*ssa.Return)
-				if !isR {
+				if !isR || len(r.Results) != 1 || an.Norm(r.Results[0]) != "true" {
 					return
 				}
-				nret++
-				k, isK := an.Resolve(r.Results[0]).(*ssa.Call)
-				if isK && an.CalleeName(k) == "errors.As" && an.Norm(k.Common().Args[0]) == "p:err" {
-					if mi, isMI := k.Common().Args[1].(*ssa.MakeInterface); isMI && an.IsDigNamed(mi.X.Type(), "errCycleDetected") {
-						ok = true
+				nTrue++
+				if hit, _ := an.PathTo(fn, nil, an.IsInstr(r), an.NewGates().AddEdges(found...)); hit != nil || len(found) == 0 {
+					if good {
+						good, why = false, "IsCycleDetected can answer true without having found an errCycleDetected link"
 					}
 				}
 			})
-			c.Check(ok && nret == 1, rule, "IsCycleDetected is exactly errors.As(err, *errCycleDetected)", "single return of errors.As", "IsCycleDetected is widened or narrowed beyond errors.As(err, *errCycleDetected)", nil, nil)
+			if good && nTrue == 0 {
+				good, why = false, "IsCycleDetected never answers true by finding an errCycleDetected link among dig's own links"
+			}
+			if good {
+				if ok, w := stopsAtConstructorFailed(fn); !ok {
+					good, why = false, "IsCycleDetected: "+w+" (whatever a constructor returned is not a cycle rejection of this container)"
+				}
+			}
+			c.Check(good, rule, "IsCycleDetected follows dig's own links only and is true exactly for an errCycleDetected link", "outermost dig.Error, then link by link, stop at errConstructorFailed", why, nil, nil)
 		}
 	}
 }
